@@ -70,7 +70,9 @@ PAYLOADS = ['x"onerror="alert(1)', "a'b", '<script>', '&quot;', 'a&b', '"><img s
             '\x7f', ' ']
 TEMPLATES = ['[a]({p})', '[a](<{p}>)', '![{p}](x)', '![a]({p})', '![a](x "{p}")', "[a](x '{p}')", '[a](x ({p}))', '```{p}\ncode\n```', '~~~ {p}\n{p}\n~~~',
              '<http://x/{p}>', '<{p}@example.com>', '[a]: {p} "{p}"\n\n[a]', '[{p}]: /u "t"\n\n[{p}]', '`{p}`', '    {p}', '# {p}', '> {p}', '- {p}', '**{p}**',
-             '| {p} |\n|---|\n| {p} |', '[{p}](u)', '![a](<{p}> "{p}")', '{p}', 'a *{p}* ~~{p}~~', '[a][{p}]\n\n[{p}]: <{p}> ({p})', '1. {p}\n2. `{p}`']
+             '| {p} |\n|---|\n| {p} |', '[{p}](u)', '![a](<{p}> "{p}")', '{p}', 'a *{p}* ~~{p}~~', '[a][{p}]\n\n[{p}]: <{p}> ({p})', '1. {p}\n2. `{p}`',
+             # rich content in one slot, the payload in another
+             '[*c* "q" <b>](/u \'{p}\')', '![*c* "q"](/i "{p}")', '[**s** \'q\'][r]\n\n[r]: /u "{p}"', '[`co` & "q"]({p} "t")', '![a "b"]({p})']
 
 OPTS = [dict(process_html_tokens=p, html_escape_double_quotes=d, html_escape_single_quotes=s) for p in (False, True) for d in (False, True) for s in (False, True)]
 
